@@ -7,6 +7,7 @@ import (
 	"sort"
 	"strings"
 	"sync"
+	"sync/atomic"
 	"time"
 )
 
@@ -79,6 +80,8 @@ type pathState struct {
 	nBranch int
 	decided map[termKey]bool // conditions already asserted on this path -> their truth value
 	memoHits int
+	pcHash   termKey // running hash of the asserted path condition (order-sensitive)
+	noPush   bool    // the last check() was answered from the cross-path cache (nothing to pop)
 }
 
 type explorer struct {
@@ -109,6 +112,8 @@ type explorer struct {
 	maxVectors int
 	doneSeen   int
 	usesStubs  bool
+	qcache     sync.Map // qkey -> "sat"/"unsat"
+	cacheHits  atomic.Int64
 }
 
 // vector is a concrete input assignment for a completed path (used to
@@ -284,9 +289,34 @@ func (ps *pathState) flush() {
 	}
 }
 
+type qkey struct{ pc, c termKey }
+
+// checkCached is check() for callers that only need the verdict: identical
+// (path condition, query) pairs recur on every path that shares a prefix, so
+// verdicts are shared across paths and workers.
+func (ps *pathState) checkCached(extra *term) string {
+	if extra.isFalse() {
+		ps.noPush = true
+		return "unsat"
+	}
+	k := qkey{ps.pcHash, extra.key()}
+	if v, ok := ps.ex.qcache.Load(k); ok {
+		ps.noPush = true
+		ps.ex.cacheHits.Add(1)
+		return v.(string)
+	}
+	r := ps.check(extra)
+	if r == "sat" || r == "unsat" {
+		ps.ex.qcache.Store(k, r)
+	}
+	return r
+}
+
 // check decides satisfiability of pc ∧ extra.
 func (ps *pathState) check(extra *term) string {
+	ps.noPush = false
 	if extra.isFalse() {
+		ps.noPush = true
 		return "unsat"
 	}
 	s := ps.w.solver
@@ -309,13 +339,21 @@ func (ps *pathState) check(extra *term) string {
 	return res
 }
 
-func (ps *pathState) popQuery() { ps.w.solver.send("(pop 1)\n") }
+func (ps *pathState) popQuery() {
+	if ps.noPush {
+		ps.noPush = false
+		return
+	}
+	ps.w.solver.send("(pop 1)\n")
+}
 
 func (ps *pathState) assert(c *term) {
 	if c.isTrue() {
 		return
 	}
 	ps.pc = append(ps.pc, c)
+	k := c.key()
+	ps.pcHash = termKey{(ps.pcHash.a ^ k.a) * 1099511628211, (ps.pcHash.b + k.b + (ps.pcHash.b << 7)) * 0x9E3779B97F4A7C15}
 	if ps.decided == nil {
 		ps.decided = map[termKey]bool{}
 	}
@@ -366,13 +404,13 @@ func (ps *pathState) branch(c *term) bool {
 		}
 		return d.B
 	}
-	rt := ps.check(c)
+	rt := ps.checkCached(c)
 	ps.popQuery()
 	var rf string
 	if rt == "unsat" {
 		rf = "sat" // pc is satisfiable by construction
 	} else {
-		rf = ps.check(tNot(c))
+		rf = ps.checkCached(tNot(c))
 		ps.popQuery()
 	}
 	if rt == "unknown" || rf == "unknown" {
@@ -519,7 +557,7 @@ func (ps *pathState) assume(c *term) {
 		ps.assert(c)
 		return
 	}
-	r := ps.check(c)
+	r := ps.checkCached(c)
 	ps.popQuery()
 	if r == "unsat" {
 		panic(pathEnd{"assume", ""})
